@@ -7,7 +7,7 @@
                     cblock   VL [VI version; VI parity; point; VL hashes]              *)
 From Coq Require Import String.
 From V Require Import Base.Prelude Base.Ints Base.Disp Model.Helper Model.Script Model.Pecc
-  Model.Taproot.
+  Model.Taproot Model.TaprootExt.
 Open Scope string_scope.
 Open Scope Z_scope.
 
@@ -75,6 +75,25 @@ Fixpoint enc_tree (t : taptree) : val :=
   end.
 
 Definition K := secp256k1.
+
+Definition enc_leaf (lf : leaf) : val := VL [VI (fst lf); enc_script (snd lf)].
+
+(* harness glue: the honest script-path pipeline as one composition — build the control block,
+   serialize, parse, compare with ==, and run the commitment check on [raw script; control block] *)
+Definition spend_pipeline (sha : bytes -> bytes) (t : taptree) (P : point) (lf : leaf)
+  : result (bytes * bool * bool) :=
+  ocb <- tree_control_block K sha t P lf ;;
+  match ocb with
+  | None => Err
+  | Some cb =>
+      raw <- cb_serialize cb ;;
+      cb' <- cb_parse K raw ;;
+      e <- cb_eqb cb' cb ;;
+      rs <- raw_serialize (snd lf) ;;
+      Q <- tree_external_pubkey K sha t P ;;
+      ok <- script_path_commit_check K sha (xonly Q) [rs; raw] ;;
+      Ok (raw, e, ok)
+  end.
 
 Definition dispatch (H : oracle) (fn : list Z) (args : list val) : val :=
   let sha := o_sha256 H in
@@ -165,5 +184,38 @@ Definition dispatch (H : oracle) (fn : list Z) (args : list val) : val :=
     match args with
     | [VL ts] => match dec_list dec_tree ts with
                  | Some l => vres enc_tree (combine_nodes (length l) l) | None => bad_args end
+    | _ => bad_args end
+  else if fn_is "cb_eq" fn then
+    match args with
+    | [a; b] => match dec_cb a, dec_cb b with
+                | Some x, Some y => vres_bool (cb_eqb x y) | _, _ => bad_args end
+    | _ => bad_args end
+  else if fn_is "leaf_control_block_default" fn then
+    match args with
+    | [lf; pt] => match dec_leaf lf, dec_point pt with
+                  | Some (v, sc), Some p => vres enc_cb (leaf_control_block_default K sha v sc p)
+                  | _, _ => bad_args end
+    | _ => bad_args end
+  else if fn_is "tap_leaf_default" fn then
+    match args with
+    | [sc] => match dec_script sc with
+              | Some s => enc_leaf (tapscript_tap_leaf s) | None => bad_args end
+    | _ => bad_args end
+  else if fn_is "witness_tap_leaf" fn then
+    match args with
+    | [VL items] => match vals_bytes items with
+                    | Some it => vres enc_leaf (witness_tap_leaf K it) | None => bad_args end
+    | _ => bad_args end
+  else if fn_is "witness_tap_leaf_hash" fn then
+    match args with
+    | [VL items] => match vals_bytes items with
+                    | Some it => vres_b (witness_tap_leaf_hash K sha it) | None => bad_args end
+    | _ => bad_args end
+  else if fn_is "spend_pipeline" fn then
+    match args with
+    | [t; pt; lf] => match dec_tree t, dec_point pt, dec_leaf lf with
+                     | Some tr, Some p, Some l =>
+                         vres (fun '(raw, e, ok) => VL [VB raw; vbool e; vbool ok]) (spend_pipeline sha tr p l)
+                     | _, _, _ => bad_args end
     | _ => bad_args end
   else bad_args.
